@@ -12,6 +12,7 @@ result = {"import_error": None | {"type", "msg", "module", "line", "text"},
           "manifests": {module: [names]},
           "headers": {module: {"package", "marshal"}}   (the arguments of `__protobuf__ = proto.module(...)` as proto-plus keeps them),
           "roundtrips": [{"bytes_out": b64, "json_out": text, "from_json_out": b64} | {"raised", "msg", "stage"}],
+          "shadowed_class_api": {full_name: [names of pb/serialize/deserialize/to_json/... that are no longer the class-level API]},
           "types_all": {types package: {"all": [...], "missing": [names of __all__ that are not attributes]}}}
 
 A round trip may carry "literal": the valuation as a *literal a caller would write* (tagged JSON, see `_lit`), keyed by
@@ -60,6 +61,21 @@ def _lit(v):
     raise ValueError(tag)
 
 
+# class-level API of proto-plus messages (methods / property of proto.message.MessageMeta)
+CLASS_API = ("pb", "serialize", "deserialize", "to_json", "from_json", "to_dict", "wrap", "copy_from", "meta")
+
+
+def _api(cls, name):
+    """`cls.<name>` of the proto-plus class-level API; when the class attribute has been replaced by something that is not
+    callable (reported under "shadowed_class_api"), the metaclass's own function, so that the session can go on"""
+    f = getattr(cls, name)
+    if callable(f):
+        return f
+    import functools
+    import proto.message
+    return functools.partial(getattr(proto.message.MessageMeta, name), cls)
+
+
 def op_types_session(o):
     import proto
     from google.protobuf import descriptor_pb2
@@ -81,13 +97,16 @@ def op_types_session(o):
                 return
             classes[full] = cls
             d = descriptor_pb2.DescriptorProto()
-            pbcls = cls.pb()
+            pbcls = cls._meta.pb          # what `cls.pb()` returns (read directly: a field may be called `pb` or `meta`)
+            lost_api = [n for n in CLASS_API if isinstance(getattr(cls, n, None), str)]
+            if lost_api:
+                out.setdefault("shadowed_class_api", {})[full] = lost_api
             rec = {"module": modname, "qualname": cls.__qualname__, "attrs": list(cls._meta.fields.keys())}
             if pbcls is None:
                 rec["desc"] = None
                 rec["file"] = None
             else:
-                cls.pb(cls()).DESCRIPTOR.CopyToProto(d)
+                cls()._pb.DESCRIPTOR.CopyToProto(d)
                 rec["desc"] = _b64(d.SerializeToString())
                 rec["file"] = pbcls.DESCRIPTOR.file.name
             out["messages"][full] = rec
@@ -130,15 +149,16 @@ def op_types_session(o):
         try:
             cls = classes[rt["full"]]
             stage = "deserialize"
-            obj = cls.deserialize(base64.b64decode(rt["b64"]))
+            ser, to_json = _api(cls, "serialize"), _api(cls, "to_json")
+            obj = _api(cls, "deserialize")(base64.b64decode(rt["b64"]))
             stage = "serialize"
-            res = {"bytes_out": _b64(cls.serialize(obj))}
+            res = {"bytes_out": _b64(ser(obj))}
             stage = "to_json"
-            res["json_out"] = cls.to_json(obj)
+            res["json_out"] = to_json(obj)
             stage = "from_json"
-            obj2 = cls.from_json(rt["json"])
+            obj2 = _api(cls, "from_json")(rt["json"])
             stage = "serialize2"
-            res["from_json_out"] = _b64(cls.serialize(obj2))
+            res["from_json_out"] = _b64(ser(obj2))
             stage = "eq"
             res["eq"] = bool(obj == obj2)
             if "literal" in rt:
@@ -146,9 +166,9 @@ def op_types_session(o):
                 lit = _lit({"msg": rt["literal"]})
                 stage = "ctor"
                 obj3 = cls(lit)
-                res["ctor_out"] = _b64(cls.serialize(obj3))
+                res["ctor_out"] = _b64(ser(obj3))
                 stage = "ctor_to_json"
-                res["ctor_json"] = cls.to_json(obj3)
+                res["ctor_json"] = to_json(obj3)
                 stage = "setattr"
                 obj4 = cls()
                 for k, v in lit.items():
@@ -156,10 +176,10 @@ def op_types_session(o):
                 stage = "getattr"
                 for k in lit:
                     getattr(obj4, k)
-                res["setattr_out"] = _b64(cls.serialize(obj4))
+                res["setattr_out"] = _b64(ser(obj4))
                 stage = "ctor_kwargs"
                 obj5 = cls(**lit)
-                res["kwargs_out"] = _b64(cls.serialize(obj5))
+                res["kwargs_out"] = _b64(ser(obj5))
             out["roundtrips"].append(res)
         except BaseException as e:  # noqa
             out["roundtrips"].append({"raised": type(e).__name__, "msg": str(e)[:300], "stage": stage})
